@@ -5,7 +5,11 @@
   and, per process, where it stands in the protocol.  Steps = the syscalls of MFrontLock.cxx:
     open p    `MFrontLock::MFrontLock`   sem_open(name, O_CREAT, 0600, 1): creates the semaphore with
                                          value 1 only when it does not exist, never resets it
-    lock p    `MFrontLockGuard` ctor     sem_wait returned: enabled iff count > 0, count - 1
+    lock p    `MFrontLockGuard` ctor     sem_wait returned 0: enabled iff count > 0, count - 1
+    intr p    `MFrontLock::lock`         sem_wait returned -1/EINTR (a signal handler installed without
+                                         SA_RESTART ran while the process was blocked): the count is
+                                         unchanged and the process has NOT acquired anything; the code may
+                                         raise or call sem_wait again, it may not enter the section
     unlock p  `MFrontLock::unlock`       sem_post: count + 1
     exit p    normal process exit        static destructor `~MFrontLock` runs
     kill p / killcs p                    abnormal termination outside / inside a critical section
@@ -35,6 +39,7 @@ structure State where
 inductive Event where
   | openSem (p : Nat)
   | lock (p : Nat)
+  | intr (p : Nat)
   | unlock (p : Nat)
   | exit (p : Nat)
   | kill (p : Nat)
@@ -58,6 +63,10 @@ def stepCommon (s : State) : Event → Option State
     match s.proc p, s.sem with
     | .opened d, some (c + 1) => some ⟨some c, upd s.proc p (.opened (d + 1))⟩
     | _, _ => none
+  | .intr p =>
+    match s.proc p with
+    | .opened _ => some s
+    | _ => none
   | .unlock p =>
     match s.proc p, s.sem with
     | .opened (d + 1), some c => some ⟨some (c + 1), upd s.proc p (.opened d)⟩
